@@ -57,7 +57,7 @@ def make_spec(g, allow=()):
     stale_names = [n for n in [b'TestGone', b'TestGone/sub', b'TestA/x/old', b'TestOld1', b'TestOld10', b'TestB/gone'] if n not in names]
     r.shuffle(stale_names)
     # the Dir option as the user wrote it: not always in shortest form
-    sd = r.choice(['snaps', 'snaps', 'snaps/', './snaps', 'snaps/.', 'x/../snaps'])
+    sd = r.choice(['snaps', 'snaps', 'snaps/', './snaps', 'snaps/.', 'x/../snaps', '.snapshots', 'my.snap.d'])
     files = [(sd, None, None), (r.choice(['snaps', sd]), 'custom', None), (r.choice(['other/dir', 'other//dir/']), None, '.txt')]
     nfiles = r.choice([1, 1, 2, 3])
     cfgs = [cfg_line(i + 1, *files[i]) for i in range(nfiles)]
@@ -123,7 +123,22 @@ def make_spec(g, allow=()):
             seen.add((cfgno, sid))
             uniq.append((cfgno, sid, body))
     stale = uniq
-    return dict(cfgs=cfgs, nfiles=nfiles, tests=tests, stale=stale,
+    # tests that call snaps.Skip instead of running: their prepared entries are protected exactly like
+    # addressed ones.  (Only tests without descendants or stale slots of their own, and only when
+    # every file they use is also addressed by a test that runs: otherwise known findings D6/D8 apply.)
+    skipped = []
+    if r.random() < 0.4:
+        for n, calls in tests:
+            if not calls or r.random() < 0.4:
+                continue
+            if any(o != n and o.startswith(n + b'/') for o, _ in tests):
+                continue
+            if any(sid.startswith(n + b'/') or sid.startswith(n + b' - ') for _, sid, _ in stale):
+                continue
+            running = [(o, oc) for o, oc in tests if o != n and o not in skipped]
+            if all(any(c2 == c for _, oc in running for c2, _ in oc) for c in set(c for c, _ in calls)):
+                skipped.append(n)
+    return dict(cfgs=cfgs, nfiles=nfiles, tests=tests, stale=stale, skipped=skipped,
                 count=r.choice([1, 1, 2, 3]), shuffle=r.randrange(1 << 30),
                 stale_files=r.sample(['old_test.snap', 'x.snapshot', 'gone_1.snap', 'a.snap.json'], r.choice([0, 0, 1, 2])),
                 decoys=r.random() < 0.6,
@@ -207,6 +222,9 @@ def render(tag, spec, oracles):
         for n, calls in spec['tests']:
             texec += 1
             w.add('begin %d %s' % (texec, hx(n)))
+            if n in spec.get('skipped', ()):
+                w.add('skip %d %s' % (texec, ['skip', 'skipf', 'skipnow'][(texec + spec['shuffle']) % 3]))
+                continue
             for cfgno, v in calls:
                 w.add('snap %d %d %s' % (cfgno, texec, hx(v)), ('prepared-entry-passes', exp_silent))
             w.add('end %d' % texec)
@@ -334,12 +352,13 @@ def o_rewrite_preserves(w):
         if ea is None:
             return 'file %r not well formed after Clean' % p
         want = [e for e in eb if not (dele and e[0] in [t for t, _, live in entries if not live])]
-        if srt and not nat_total([e[0] for e in eb]):
-            continue        # the property only speaks about ids on which the natural order is total
+        # (which entries survive, with which values, does not depend on the order being total)
         if sorted(ea) != sorted(want):
             return 'entries of %r changed: before %r after %r' % (p, [e[0] for e in eb], [e[0] for e in ea])
         if len(set(e[0] for e in ea)) != len(ea):
             return 'duplicate entries after Clean'
+        if srt and not nat_total([e[0] for e in eb]):
+            continue        # the ORDER clauses only speak about ids on which the natural order is total
         if srt and nat_total([e[0] for e in ea]):
             ids = [e[0] for e in ea]
             import functools
@@ -362,7 +381,9 @@ def o_rewrite_preserves(w):
         if not (dele and has_stale) and (not srt or already) and nat_total(ids) and p in l1.writes:
             return 'file %r needed neither pruning nor sorting but was written' % p
     l2 = Line(w.impl[w.meta['clean2']])
-    if l2.writes or l2.removed or after2 != after:
+    all_total = all(nat_total([e[0] for e in (parse_snap(before[file_of(w, c, before)]) or [])])
+                    for c, es in w.meta['per'].items() if file_of(w, c, before) and any(l for _, _, l in es))
+    if (all_total or not srt) and (l2.writes or l2.removed or after2 != after):
         return 'a second Clean changed something: w=%r d=%r' % (l2.writes, l2.removed)
     return None
 
@@ -374,6 +395,22 @@ def big_clean_spec(g, mode=(False, ''), sort='-'):
     stale = [(1, b'TestGoneEarly/sub - 1', b'old early'), (1, b'TestGoneMiddle - 3', b'old middle\nsecond line')]
     return dict(cfgs=[cfg_line(1, 'snaps')], nfiles=1, tests=[(b'TestBigClean', calls)], stale=stale, count=1, shuffle=4,
                 stale_files=[], decoys=False, mode=mode, sort=sort, flags=set())
+
+
+def tie_specs():
+    """ids on which maruel/natural is NOT a total order (numbers that differ only by leading zeros
+    compare equal both ways) and ids of equal length whose numeric parts have compensating widths
+    (`case_9 - 10` / `case_10 - 1`): whatever the order Clean chooses, no addressed entry may be lost,
+    merged or duplicated, and where the order is total it must be the natural one."""
+    out = []
+    zero = [(b'TestZ/v01', [(1, b'z01')]), (b'TestZ/v1', [(1, b'z1'), (1, b'z1 second')]), (b'TestZ/v001', [(1, b'z001')]), (b'TestZ/v2', [(1, b'z2')])]
+    nine = [(b'TestN/case_9', [(1, b'nine %d' % k) for k in range(1, 11)]), (b'TestN/case_10', [(1, b'ten 1')]), (b'TestN/case_100', [(1, b'hundred 1')])]
+    for tests in (zero, nine):
+        for mode, srt in (((False, ''), '1'), ((False, 'clean'), '1'), ((False, 'clean'), '-'), ((True, ''), '1')):
+            for sh in (1, 2, 3, 7, 8):
+                out.append(dict(cfgs=[cfg_line(1, 'snaps')], nfiles=1, tests=tests, stale=[(1, b'TestGone - 1', b'stale')] if sh % 2 else [],
+                                count=1, shuffle=sh, stale_files=[], decoys=False, mode=mode, sort=srt, flags=set()))
+    return out
 
 
 def junk_worlds(prefix):
